@@ -40,9 +40,9 @@ def stepL2Rep (st : St) (cmd : List String) (got : String) : Option (St × Verdi
           let exact : Verdict :=
             if rx.wf && ry.wf then
               let r := renderRep (f2 rx ry)
-              if r != rzS then
+              if !rz.wf then some ("well-formed result of static " ++ op ++ " on well-formed operands")
+              else if r != rzS then
                 some ("L2 bitmap model = Go representation; model: " ++ r.take 400)
-              else if !rz.wf then some ("well-formed result of static " ++ op ++ " on well-formed operands")
               else none
             else none
           some (st', firstFail [
